@@ -714,7 +714,7 @@ def proc_was_alive(sim, proc):
     earlier operation means it was already gone; one recorded during the scan
     itself does not)"""
     pos = sim.exit_logpos.get(proc.pid)
-    return pos is None or pos >= getattr(sim, 'scan_logpos', 0)
+    return pos is None or pos > getattr(sim, 'scan_logpos', 0)
 
 
 def run_case(case, clauses, final_ops=(('quiesce',),), prop=None):
